@@ -61,6 +61,8 @@ type Step struct {
 	// persistent containers are closed afterwards (the value is finished), otherwise it stays open
 	Stop  int  `json:"stop,omitempty"`
 	Close bool `json:"close,omitempty"`
+	// serve: a request with framing Env (strict / legacy / bare) and body W is read and answered (serve_test.go)
+	Serve *Serve `json:"serve,omitempty"`
 }
 
 // value is the value the step works on.
@@ -87,8 +89,53 @@ type held struct {
 }
 
 type machine struct {
-	kept []*kept
-	held []held
+	kept    []*kept
+	held    []held
+	writers []*openWriter // stream writers borrowed by writer-open (Idx of writer-write / writer-close)
+}
+
+func (m *machine) openWriters() []int {
+	var is []int
+	for i, w := range m.writers {
+		if w.open {
+			is = append(is, i)
+		}
+	}
+	return is
+}
+
+// writersIntact: what has reached the buffer of a writer that is still open is
+// a prefix of what was written through it -- nobody else writes there.
+func (m *machine) writersIntact(when string) error {
+	for i, w := range m.writers {
+		if w.open && !bytes.HasPrefix(w.want, w.buf.Bytes()) {
+			return ev.Errf("pool/open-writer/foreign-bytes", "%s: the buffer of open stream writer #%d holds %x…, which is not a prefix of what was written through it (%x…): first difference at offset %d", when, i, clip(w.buf.Bytes(), 48), clip(w.want, 48), firstDiff(w.buf.Bytes(), w.want))
+		}
+	}
+	return nil
+}
+
+// closeWriter closes open writer #i; now its buffer holds exactly what was written.
+func (m *machine) closeWriter(no, i int) error {
+	w := m.writers[i]
+	w.open = false
+	if err := w.sw.Close(); err != nil {
+		return ev.Errf("pool/writer-close/error", "step %d: closing stream writer #%d failed: %v", no, i, err)
+	}
+	if !bytes.Equal(w.buf.Bytes(), w.want) {
+		return ev.Errf("pool/writer-close/bytes", "step %d: stream writer #%d was held open while other steps ran; its output (%d bytes) differs from the spec bytes of the values written through it (%d bytes) at offset %d", no, i, w.buf.Len(), len(w.want), firstDiff(w.buf.Bytes(), w.want))
+	}
+	return nil
+}
+
+// finish closes the writers the script left open (a borrowed writer has to be closed).
+func (m *machine) finish(no int) error {
+	for _, i := range m.openWriters() {
+		if err := m.closeWriter(no, i); err != nil {
+			return err
+		}
+	}
+	return m.heldIntact("at the end of the script")
 }
 
 // hold remembers the result of a step: every big one, and the first few others.
@@ -319,6 +366,49 @@ func (m *machine) step(no int, s Step) error {
 		if err != nil {
 			return ev.Errf("pool/evaluate/error", "step %d: EvaluateValue of kept value #%d failed: %v", no, s.Idx, err)
 		}
+	case "serve":
+		e := refcodec.Envelope{Name: []byte("served"), Type: 1, SeqID: int32(no), Body: val}
+		name, seq := "served", int32(no)
+		var in []byte
+		switch s.Env {
+		case refcodec.FrameStrict:
+			in = refcodec.EncodeStrict(e)
+		case refcodec.FrameLegacy:
+			in = refcodec.EncodeLegacy(e)
+		default:
+			in, name, seq = refcodec.Encode(val), "", 0
+		}
+		if s.Serve == nil || s.Serve.Resp == nil {
+			return ev.Errf("harness/pool-step", "step %d: serve without a response", no)
+		}
+		h, req, out, err := serveOnce(in, s.Plan, 1, s.Serve, nil, 0)
+		if err != nil {
+			return ev.Errf("pool/serve/error", "step %d: serving a %s request (%s): %v", no, s.Env, s.Serve, err)
+		}
+		if want := hdr(s.Env, name, 1, seq); h != want {
+			return ev.Errf("pool/serve/header", "step %d: the responder of a %s request stands for %s, want %s", no, s.Env, h, want)
+		}
+		if !wm.Equal(req, val) {
+			return ev.Errf("pool/serve/request", "step %d: the %s request (%s) reads as %s, want %s", no, s.Env, s.Serve.Via, wm.Render(req), wm.Render(val))
+		}
+		if s.Serve.Respond != respondWriteFail {
+			if want := serveWant(s.Env, []byte(name), seq, s.Serve); !bytes.Equal(out, want) {
+				return ev.Errf("pool/serve/response", "step %d: the response to a %s request (%s) differs from the spec bytes at offset %d: got %x… want %x…", no, s.Env, s.Serve, firstDiff(out, want), clip(out, 48), clip(want, 48))
+			}
+		}
+	case "writer-open":
+		b := &bytes.Buffer{}
+		m.writers = append(m.writers, &openWriter{sw: binary.Default.Writer(b), buf: b, open: true})
+	case "writer-write":
+		w := m.writers[s.Idx]
+		if err := bridge.StreamWrite(w.sw, val); err != nil {
+			return ev.Errf("pool/writer-write/error", "step %d: writing %s through open stream writer #%d failed: %v", no, wm.Render(val), s.Idx, err)
+		}
+		w.want = refcodec.Append(w.want, val)
+	case "writer-close":
+		if err := m.closeWriter(no, s.Idx); err != nil {
+			return err
+		}
 	case "drop":
 		k := m.kept[s.Idx]
 		k.open = false
@@ -329,6 +419,9 @@ func (m *machine) step(no int, s Step) error {
 		}
 	default:
 		return ev.Errf("harness/pool-step", "unknown step %q", s.Act)
+	}
+	if err := m.writersIntact(fmt.Sprintf("after step %d (%s)", no, s.Act)); err != nil {
+		return err
 	}
 	return m.invariant(s.Act, no)
 }
@@ -341,14 +434,20 @@ func checkPool(c PoolCase) error {
 		if (s.Act == "force" || s.Act == "partial" || s.Act == "close" || s.Act == "evaluate" || s.Act == "drop") && (s.Idx < 0 || s.Idx >= len(m.kept) || !m.kept[s.Idx].open) {
 			return ev.Errf("harness/pool-script", "step %d (%s) refers to kept value #%d which is not open: illegal history", i, s.Act, s.Idx)
 		}
+		if (s.Act == "writer-write" || s.Act == "writer-close") && (s.Idx < 0 || s.Idx >= len(m.writers) || !m.writers[s.Idx].open) {
+			return ev.Errf("harness/pool-script", "step %d (%s) refers to stream writer #%d which is not open: illegal history", i, s.Act, s.Idx)
+		}
 		if err := m.step(i, s); err != nil {
 			return err
 		}
 	}
-	return m.heldIntact("at the end of the script")
+	return m.finish(len(c.Steps))
 }
 
-const maxOpenKept = 6
+const (
+	maxOpenKept    = 6
+	maxOpenWriters = 3
+)
 
 func TestPoolStateMachine(t *testing.T) {
 	rapid.Check(t, func(t *rapid.T) {
@@ -358,7 +457,7 @@ func TestPoolStateMachine(t *testing.T) {
 		record := func(failed bool) {
 			kinds := map[string]bool{}
 			released := false
-			nBig, nBad := 0, 0
+			nBig, nBad, nOpenW := 0, 0, 0
 			for _, s := range script {
 				kinds[s.Act] = true
 				if s.Act == "close" || s.Act == "evaluate" {
@@ -373,6 +472,17 @@ func TestPoolStateMachine(t *testing.T) {
 				}
 				if s.Act == "partial" && s.Close {
 					kinds["partial:close"] = true
+				}
+				if s.Act == "serve" {
+					kinds["serve:"+s.Env+"/"+s.Serve.String()] = true
+				}
+				switch s.Act {
+				case "writer-open":
+					if nOpenW++; nOpenW >= 2 {
+						kinds["writers-open-together"] = true
+					}
+				case "writer-close":
+					nOpenW--
 				}
 			}
 			cls := []string{"unit:pool", fmt.Sprintf("steps:%s", stepBucket(len(script))), fmt.Sprintf("released-a-container:%v", released),
@@ -446,6 +556,17 @@ func TestPoolStateMachine(t *testing.T) {
 			}
 			return rapid.SampledFrom(is).Draw(t, "idx")
 		}
+		pickWriter := func(t *rapid.T) int {
+			is := m.openWriters()
+			if len(is) == 0 {
+				t.Skip("no open writer")
+			}
+			return rapid.SampledFrom(is).Draw(t, "widx")
+		}
+		serve := func(t *rapid.T) {
+			env := rapid.SampledFrom([]string{refcodec.FrameStrict, refcodec.FrameLegacy, refcodec.FrameBare}).Draw(t, "framing")
+			do(t, Step{Act: "serve", W: val(t, wm.KStruct), Env: env, Plan: chunkio.GenPlan(t, "plan"), Serve: genServe(t, "serve")})
+		}
 		t.Repeat(map[string]func(*rapid.T){
 			"encode": func(t *rapid.T) {
 				do(t, Step{Act: "encode", W: val(t, wm.GenRootKind().Draw(t, "root"))})
@@ -497,8 +618,23 @@ func TestPoolStateMachine(t *testing.T) {
 			"evaluate": func(t *rapid.T) { do(t, Step{Act: "evaluate", Idx: pick(t)}) },
 			"drop":     func(t *rapid.T) { do(t, Step{Act: "drop", Idx: pick(t)}) },
 			"gc":       func(t *rapid.T) { do(t, Step{Act: "gc", N: rapid.IntRange(1, 2).Draw(t, "n")}) },
+			"serve":    serve,
+			"serve2":   serve,
+			"writer-open": func(t *rapid.T) {
+				if len(m.openWriters()) >= maxOpenWriters {
+					t.Skip("enough writers")
+				}
+				do(t, Step{Act: "writer-open"})
+			},
+			"writer-write": func(t *rapid.T) {
+				do(t, Step{Act: "writer-write", Idx: pickWriter(t), W: val(t, wm.GenRootKind().Draw(t, "root"))})
+			},
+			"writer-write2": func(t *rapid.T) {
+				do(t, Step{Act: "writer-write", Idx: pickWriter(t), W: val(t, wm.GenRootKind().Draw(t, "root"))})
+			},
+			"writer-close": func(t *rapid.T) { do(t, Step{Act: "writer-close", Idx: pickWriter(t)}) },
 		})
-		if err := m.heldIntact("at the end of the script"); err != nil {
+		if err := ev.Guard(func() error { return m.finish(len(script)) }); err != nil {
 			record(true)
 			ev.Report(t, "pool", PoolCase{Steps: script}, err)
 		}
